@@ -242,6 +242,9 @@ def run_life(lay, history, fms=False, faults=None, hooks=(), fbvalue=None, obser
     DS.resetData()
     DS.setSendError(False)
     set_ds(history[0], fms)
+    # local-only NetworkTables: RobotBase's StartServer() becomes a no-op, so parallel workers do not fight
+    # over the NT ports (the same thing pyfrc does for robot tests)
+    ntcore.NetworkTableInstance.getDefault().startLocal()
 
     pkgroot = None
     _purge_auto_modules()
